@@ -152,6 +152,15 @@ func (in *c09Interp) exec(line string) (op string, out string, nontrivial bool) 
 			nontrivial = true
 			return "ok"
 		case w[0] == "removebyconfig" && len(w) == 3:
+			matches := 0
+			for _, ep := range m.epochs { // single-threaded here
+				if ep.config.ConfigFilepath() == w[1] {
+					matches++
+				}
+			}
+			if matches > 1 {
+				in.s.Count("removebyconfig-several-epochs-share-the-path")
+			}
 			n, err := m.RemoveEpochByConfigFilepath(w[1])
 			if err != nil {
 				op = "removebyconfig " + w[1] + " -"
@@ -232,6 +241,14 @@ func (in *c09Interp) exec(line string) (op string, out string, nontrivial bool) 
 		}
 		return "bad-op"
 	})
+	cls := out
+	if i := strings.IndexByte(cls, ' '); i >= 0 {
+		cls = cls[:i]
+	}
+	if _, err := strconv.ParseUint(cls, 10, 64); err == nil {
+		cls = "list"
+	}
+	in.s.Count("out:" + w[0] + ":" + cls)
 	if out == "panic" {
 		in.s.Violation("panic in "+line+": "+zz.LastPanic, "C09:panic:"+w[0], in.s.Replay(append(append([]string{}, in.h.caseOps...), line)))
 	}
@@ -801,13 +818,23 @@ func (h *c09Harness) runPhase(c c09Cfg, window time.Duration) (string, map[strin
 				unfinished++
 			}
 		}
+		// the goroutines that can hold or release this MultiEpoch's lock: the workers of the phase and whatever
+		// goroutine is inside a MultiEpoch method on their behalf (jobs of the parallel signature search)
 		var cur []c09G
+		nWorkers := 0
 		for _, g := range c09Goroutines() {
-			if strings.Contains(g.stack, "c09Worker") && !h.leaked[g.id] {
+			if h.leaked[g.id] {
+				continue
+			}
+			isWorker := strings.Contains(g.stack, "c09Worker")
+			if isWorker || strings.Contains(g.stack, "(*MultiEpoch).") {
 				cur = append(cur, g)
+				if isWorker {
+					nWorkers++
+				}
 			}
 		}
-		parked := len(cur) > 0 && len(cur) == unfinished
+		parked := nWorkers > 0 && nWorkers == unfinished
 		var ids []string
 		for _, g := range cur {
 			if !c09ParkedInRWMutex(g) {
@@ -1070,7 +1097,7 @@ func (h *c09Harness) genConcurrent(rng *zz.RNG) {
 	readers := c09Readers()
 	iters := 4000
 	if zz.Thorough() {
-		iters = 40000
+		iters = 100000
 	}
 	// targeted: every accessor alone against a writer loop (the nested read lock of a single accessor shows here,
 	// and the violation names it)
@@ -1093,13 +1120,19 @@ func (h *c09Harness) genConcurrent(rng *zz.RNG) {
 	if zz.Thorough() {
 		procs = []int{1, 2, 3, 4, 8, runtime.NumCPU(), 2 * runtime.NumCPU()}
 	}
-	for i, p := range procs {
-		if p < 1 {
-			p = 1
+	rounds := 1
+	if zz.Thorough() {
+		rounds = 3
+	}
+	for round := 0; round < rounds; round++ {
+		for i, p := range procs {
+			if p < 1 {
+				p = 1
+			}
+			c := c09Cfg{kind: "mixed", readers: good, writers: c09WriterKinds, nr: 1 + round%2, nw: 1 + round/2, procs: p, iters: iters,
+				gsfa: (i+round)%2 == 1, rseed: rng.U64() % 1000000}
+			h.execConcurrent(c.line())
 		}
-		c := c09Cfg{kind: "mixed", readers: good, writers: c09WriterKinds, nr: 1, nw: 1, procs: p, iters: iters,
-			gsfa: i%2 == 1, rseed: rng.U64() % 1000000}
-		h.execConcurrent(c.line())
 	}
 }
 
